@@ -3,7 +3,7 @@
 # archive it under /verif/seeded/<name>, then run the /verif checks against it.
 set -u
 ID=$1; NAME=${2:-$ID}
-SRC=/tmp/wtout/$ID
+SRC=${SRCBASE:-/tmp/wtout}/$ID
 DST=/verif/seeded/$NAME
 export PATH=/opt/veriftools/go1.26.8/bin:$PATH GOTOOLCHAIN=local GOFLAGS=-mod=mod GOPROXY=off GOSUMDB=off
 [ -f $SRC/patch.diff ] || { echo "no patch"; exit 2; }
